@@ -122,6 +122,20 @@ Theorem C07_app_judgement_transfer : forall sc t, JudgeC07P.spawns_declared sc =
 Proof. exact JudgeC07tP.C07_app_judgement_transfer. Qed.
 
 
+(* ---- source tie, fifth wave (DESIGN 11.7): the registry construction side regenerated from src/input_context.rs:
+   ContextInstances::index and ContextInstances::add (existing group: push; new group: insertion at the position the search on
+   Reverse(priority) returns) equal Model/Registry.index_of and reg_add, Leibniz; the statements are those of Proofs/SrcTie5P.v ---- *)
+From BEI Require Generated.RegistrySrc Proofs.SrcTie5P.
+Theorem C07_source_registry_add : ltac:(let t := type of SrcTie5P.ContextInstances_add_tie in exact t).
+Proof. exact SrcTie5P.ContextInstances_add_tie. Qed.
+
+Theorem C07_source_registry_index : ltac:(let t := type of SrcTie5P.ContextInstances_index_tie in exact t).
+Proof. exact SrcTie5P.ContextInstances_index_tie. Qed.
+
+Theorem C07_source_registry_search : ltac:(let t := type of SrcTie5P.bsearch_tie in exact t).
+Proof. exact SrcTie5P.bsearch_tie. Qed.
+
+
 Print Assumptions C07_init.
 Print Assumptions C07_op_never_panics.
 Print Assumptions C07_ops_never_panic.
@@ -144,3 +158,6 @@ Print Assumptions C07_shared_arrival.
 Print Assumptions C07_removal.
 Print Assumptions C07_app_judgement_sound.
 Print Assumptions C07_app_judgement_transfer.
+Print Assumptions C07_source_registry_add.
+Print Assumptions C07_source_registry_index.
+Print Assumptions C07_source_registry_search.
